@@ -67,8 +67,9 @@ def cheb_derivs(f, lo, hi, x0, N=33, orders=(1, 2, 3), chunk=None):
     Returns (vals, ders, noise): vals (P,) = interpolant at x0 (should reproduce f(x0)), ders (len(orders), P),
     noise (len(orders), P) float64 = first-order bound of the effect of the rounding noise of the samples on each
     derivative: sum_k |W_k| * n_k with W the linear functional (samples -> derivative) and n_k the noise of sample k,
-    n_k = max(eps_ld*|y_k|, 4*(eps_ld/eps_64)*|f64(x_k) - f_ld(x_k)|): the second term MEASURES the conditioning of
-    the implementation (internal cancellation such as 1 - tiny) by running the same code in float64.
+    n_k = max(eps_ld*|y_k|, 4*(eps_ld/eps_64)*|f64(x_k) - f_ld(x_k)|) + eps_ld*|x_k|*|slope_k|: the second term MEASURES
+    the conditioning of the implementation (internal cancellation such as 1 - tiny) by running the same code in float64,
+    the third is the rounding of the node positions.
     Everything else in long double.  Non-finite samples give non-finite results (caller treats as undecided).
     """
     t, A, D = _table(N)
@@ -84,7 +85,16 @@ def cheb_derivs(f, lo, hi, x0, N=33, orders=(1, 2, 3), chunk=None):
         ys_at64 = call_flat(f, xs64.astype(LD), chunk)
         ys64 = call_flat(f, xs64, chunk)
         nk = np.maximum(EPS_LD * np.abs(ys), (4 * EPS_LD / 2.220446049250313e-16) * np.abs(ys64 - ys_at64)).reshape(-1, N)
+        # float64 run has fewer than two correct digits => the evaluation has (nearly) collapsed (1 - tiny == 1): the
+        # measured deviation saturates and is only a LOWER bound of the conditioning; declare the sample all noise
+        collapsed = (np.abs(ys64 - ys_at64) > 0.01 * np.abs(ys_at64)).reshape(-1, N)
+        nk = np.where(collapsed, np.maximum(np.abs(ys).reshape(-1, N), nk), nk)
         ys = ys.reshape(-1, N)
+        # the nodes c + h*t_k are themselves rounded to long double: the samples are taken at x_k(1 + eps) - matters
+        # when |x f'| >> |f| (a point a few ulps away from a singular end that is far from the origin)
+        xk = xs.reshape(-1, N)
+        slope = np.abs(np.gradient(ys, axis=1) / np.gradient(xk, axis=1))
+        nk = nk + EPS_LD * np.abs(xk) * slope
         t0 = (x0 - c) / h  # in [-1, 1]
         vals = np.einsum("pk,pk->p", ys, C.chebval(t0, D[0]).T @ A)
         ders = np.empty((len(orders), x0.size), dtype=LD)
@@ -94,6 +104,9 @@ def cheb_derivs(f, lo, hi, x0, N=33, orders=(1, 2, 3), chunk=None):
             W = (C.chebval(t0, D[o]).T @ A) / (h**o)[:, None]  # (P, N): derivative = sum_k W[p,k] * y[p,k]
             ders[i] = np.einsum("pk,pk->p", ys, W)
             noise[i] = np.einsum("pk,pk->p", np.abs(W), nk).astype(float)
+        # a fit whose samples are all identical carries no information about the derivative (collapsed evaluation)
+        flat = np.all(ys == ys[:, :1], axis=1)
+        noise[:, flat] = np.inf
     return vals, ders, noise
 
 
